@@ -14,3 +14,40 @@ def check(rep, tier, seed):
         "bytes); after T::deserialize the public DeserializationContext is drained byte by byte: the number of "
         "bytes left must be exactly the suffix length and the value the original")
     R.run_and_judge(rep, "C07", "C07", cases, tier, seed)
+    cross_version(rep, tier, seed)
+
+
+def cross_version(rep, tier, seed):
+    """writer/reader version pairs (the last clause of the property): the C03 history stream, judged on what is
+    left unread after the reader's decode, between sibling data and inside Vec<R>"""
+    from . import c03 as H3
+    harness = C.build_harness("release")
+    model = C.build_model()
+    wd = C.workdir("C07x")
+    cases = [c for c in H3.gen_cases(seed + 7, tier) if not c["illegal"]]
+    impl = H3.run_stream(harness, model, cases, wd)
+    bad, n_scope, pairs = [], 0, {"w<r": 0, "w>r": 0, "w=r": 0}
+    for c, il in zip(cases, impl):
+        if not (c["legal"] and c["framed"] and c["expected"].startswith("ok ")):
+            continue
+        n_scope += 1
+        pairs["w<r" if c["w"] < c["r"] else "w>r" if c["w"] > c["r"] else "w=r"] += 1
+        dec_part = il.partition(" ; ")[2]
+        nsfx = 0 if c["sfx"] == "-" else len(c["sfx"]) // 2
+        ok = False
+        if dec_part.startswith("ok "):
+            val, _, rest = dec_part[3:].rpartition(" ")
+            ok = val == c["expected"][3:] and int(rest) == nsfx
+        if not ok:
+            bad.append((c, il, nsfx))
+    rep.coverage["cross_version"] = {"cases_in_scope": n_scope, "pairs": pairs, "failing": len(bad),
+                                     "rule": "legal histories, framed (writer, reader) pairs whose expected outcome "
+                                             "is a value: the reader must return it and leave exactly the suffix"}
+    rep.coverage["evaluations"] = rep.coverage.get("evaluations", 0) + n_scope
+    if bad:
+        c, il, nsfx = bad[0]
+        rep.violation(f"version {c['w']} data read by version {c['r']} does not leave exactly the {nsfx} suffix bytes: "
+                      f"{il.split(' ; ')[-1][:100]}",
+                      {"kind": "case", "writer_env": c["envW"], "reader_env": c["envR"],
+                       "case": f"xrt {c['wrap']} {c['val']} {c['wrap']} {c['sfx']}", "implementation": il,
+                       "expected": c["expected"], "n_failing": len(bad)})
